@@ -9,6 +9,9 @@ from . import core, gen, hist, jsoncheck, model, realrun, wire
 THEOREMS = {p: [] for p in ['C%02d' % i for i in range(1, 19)] + ['TIE']}
 
 # discrepancy categories (hist.analyze) that count as a failing input of the property
+THEOREMS['C18'] = ['FB.sanitize_shape', 'FB.sanitize_idempotent', 'FB.sanitize_rejects_iff', 'FB.isEqual_refl',
+                   'FB.isEqual_int_float', 'FB.isEqual_bool_num', 'FB.isEqual_list_tuple']
+
 HIST_CATS = {
     'C01': ['res', 'tree', 'inv_extra'],
     'TIE': ['impl_res', 'impl_tree', 'impl_inv', 'impl_cache'],
